@@ -1,12 +1,16 @@
 (** C32 — property theorems only. *)
 From Coq Require Import List ZArith Bool Sorted.
 From C33 Require Import C32.Model C32.Spec C32.ProofsGpd C32.ProofsInv C32.ProofsMono C32.ProofsExamples.
+From C33 Require Import C32.ModelReg C32.SpecReg C32.ProofsRegMain C32.ProofsRegRec C32.ProofsRegExamples.
 Import ListNotations.
 Open Scope Z_scope.
 
-(** Full strength, every push type, store and size limit: for every event
-    sequence the acknowledged list is exactly the deliverable sequence numbers
-    after the resume point, in increasing order. *)
+(** ONE task goroutine whose start is atomic (Model.v): full strength, every
+    push type, store and size limit: for every event sequence the acknowledged
+    list is exactly the deliverable sequence numbers after the resume point, in
+    increasing order.  For several goroutines of one name and the start-up /
+    shutdown steps see the C32_reg_… theorems below: there the same statement
+    needs the guard. *)
 Theorem C32_acked_contiguous_increasing : forall c st r0 es,
   let s := run_events c st (init_state r0) es in
   exists r, (0 < r0 -> r = r0) /\
@@ -101,3 +105,130 @@ Theorem C32_deliverable_block_posted : forall c st s latest size,
     lp (fst r) = lp s /\ rcd (fst r) = rcd s /\ acked (fst r) = acked s.
 Proof. exact deliverable_posted. Qed.
 Print Assumptions C32_deliverable_block_posted.
+
+(** * Registration and task start-up / shutdown as a transition system over
+    several goroutines of one subscriber name (ModelReg.v), unchanged code. *)
+
+(** "One task per subscriber" is false: a re-registration that finds the status
+    of the pushNotify still "not running" (the goroutine exists but has not yet
+    written it) starts a second goroutine. *)
+Theorem C32_single_task_per_subscriber_refuted : ~ C32_single_task_per_subscriber_full.
+Proof. exact single_task_refuted. Qed.
+Print Assumptions C32_single_task_per_subscriber_refuted.
+
+(** Guard (boolean, evaluated along the run): no check2ResumePush while a
+    goroutine of the name is in a start-up window (spawned, status not yet
+    written) or shutdown window (status "not running" written, entry not yet
+    deleted), and no second concurrent first registration.  Then at most one
+    goroutine can post, for every event sequence. *)
+Theorem C32_single_task_per_subscriber_partial : forall c st r0 es,
+  guard_run false c st (init_sys0 false r0) es = true ->
+  (live_tasks (yrun false c st (init_sys0 false r0) es) <= 1)%nat.
+Proof. exact (reg_single_task false). Qed.
+Print Assumptions C32_single_task_per_subscriber_partial.
+
+(** Delivery on the transition system: without the guard the acknowledged list
+    has duplicates and is out of order ... *)
+Theorem C32_reg_acked_contiguous_increasing_refuted : ~ C32_reg_acked_contiguous_increasing_full.
+Proof. exact reg_acked_refuted. Qed.
+Print Assumptions C32_reg_acked_contiguous_increasing_refuted.
+
+(** ... under the guard it is gap-free and increasing, over all interleavings of
+    registration, start-up, rounds, answers, shutdown, close and restart steps. *)
+Theorem C32_reg_acked_contiguous_increasing_partial : forall c st r0 es,
+  guard_run false c st (init_sys0 false r0) es = true ->
+  let y := yrun false c st (init_sys0 false r0) es in
+  exists r, (0 < r0 -> r = r0) /\
+            contiguous_from (c_kind c) st r (y_acked y) /\
+            StronglySorted Z.lt (y_acked y).
+Proof. exact (reg_acked_contiguous false). Qed.
+Print Assumptions C32_reg_acked_contiguous_increasing_partial.
+
+Theorem C32_reg_recorded_le_acked_partial : forall c st r0 es,
+  guard_run false c st (init_sys0 false r0) es = true ->
+  let y := yrun false c st (init_sys0 false r0) es in
+  recorded_justified (c_kind c) st r0 (y_rcd y) (y_acked y).
+Proof. exact (reg_recorded_after_ack false). Qed.
+Print Assumptions C32_reg_recorded_le_acked_partial.
+
+(** The stored last push sequence can move backwards (the slower of two
+    goroutines overwrites it) ... *)
+Theorem C32_reg_recorded_monotone_refuted : ~ C32_reg_recorded_monotone_full.
+Proof. exact reg_rcd_mono_refuted. Qed.
+Print Assumptions C32_reg_recorded_monotone_refuted.
+
+(** ... and never does under the guard. *)
+Theorem C32_reg_recorded_monotone_partial : forall c st r0 es1 es2,
+  guard_run false c st (init_sys0 false r0) (es1 ++ es2) = true ->
+  y_rcd (yrun false c st (init_sys0 false r0) es1) <= y_rcd (yrun false c st (init_sys0 false r0) (es1 ++ es2)).
+Proof. exact (reg_rcd_mono false). Qed.
+Print Assumptions C32_reg_recorded_monotone_partial.
+
+(** The second sentence of the property — a sequence is recorded as delivered
+    only after the subscriber acknowledged it — holds WITHOUT the guard, for
+    every interleaving of registrations, start-ups and goroutines, unchanged and
+    repaired code (only the setLastPushSeq of a second concurrent first
+    registration is excluded): the stored sequence is the registration value,
+    or some acknowledged number s <= it with nothing deliverable in between. *)
+Theorem C32_reg_recorded_only_after_ack : forall fx c st r0 es,
+  forallb no_setlast es = true ->
+  let y := yrun fx c st (init_sys0 fx r0) es in
+  y_rcd y = r0 \/
+  exists s, In s (y_acked y) /\ s <= y_rcd y /\
+            forall x, s < x <= y_rcd y -> matching (c_kind c) st x = false.
+Proof. exact recorded_only_after_ack. Qed.
+Print Assumptions C32_reg_recorded_only_after_ack.
+
+(** The consequence of a second goroutine, for every state: two goroutines in
+    the select at the same position deliver the same batch twice. *)
+Theorem C32_second_task_replays : forall fx c st y i j ti tj latest seqs upd,
+  i <> j ->
+  nth_error (y_ts y) i = Some ti -> nth_error (y_ts y) j = Some tj ->
+  t_pc ti = PIdle -> t_pc tj = PIdle -> t_lp tj = t_lp ti ->
+  0 < t_lp ti -> t_lp ti < latest ->
+  sl_of y (t_n ti) <= 0 -> sl_of y (t_n tj) <= 0 ->
+  gpd (c_kind c) st (t_lp ti + 1) (Z.min (c_maxcnt c) (latest - t_lp ti)) (c_maxsize c) = GData seqs upd ->
+  seqs <> [] ->
+  let y' := yrun fx c st y [VSeq i latest; VPostOk i; VSeq j latest; VPostOk j] in
+  y_acked y' = y_acked y ++ seqs ++ seqs /\ y_rcd y' = upd.
+Proof. exact second_task_replays. Qed.
+Print Assumptions C32_second_task_replays.
+
+(** The candidate repair (work/C32/fix2.diff; [fx = true]: the pushNotify is
+    marked running before the goroutine is spawned, and "not running" + delete
+    are one critical section): the guard shrinks to "no second concurrent first
+    registration", and one goroutine, gap-free delivery and a monotone record
+    hold for every other interleaving. *)
+Theorem C32_fix2_guard : forall c st es y,
+  guard_run true c st y es = forallb fixed_guard es.
+Proof. exact guard_fixed_is. Qed.
+Print Assumptions C32_fix2_guard.
+
+Theorem C32_fix2_single_task_and_order : forall c st r0 es,
+  forallb fixed_guard es = true ->
+  let y := yrun true c st (init_sys0 true r0) es in
+  (live_tasks y <= 1)%nat /\
+  (exists r, (0 < r0 -> r = r0) /\ contiguous_from (c_kind c) st r (y_acked y) /\
+             StronglySorted Z.lt (y_acked y)) /\
+  recorded_justified (c_kind c) st r0 (y_rcd y) (y_acked y).
+Proof.
+  intros c st r0 es G y. rewrite <- (guard_fixed_is c st es (init_sys0 true r0)) in G.
+  split; [exact (reg_single_task true c st r0 es G)|].
+  split; [exact (reg_acked_contiguous true c st r0 es G)|exact (reg_recorded_after_ack true c st r0 es G)].
+Qed.
+Print Assumptions C32_fix2_single_task_and_order.
+
+(** Remarks on Close (not part of the property): a goroutine that returns
+    through the LoadBlockLastSequence error path never calls Done, so Close can
+    never return again; a second Close panics. *)
+Theorem C32_error_exit_blocks_close : forall fx c st y i t es,
+  nth_error (y_ts y) i = Some t -> t_pc t = PIdle -> sl_of y (t_n t) <= 0 ->
+  all_done (yrun fx c st y (VSeqErr i :: es)) = false.
+Proof. exact error_exit_blocks_close. Qed.
+Print Assumptions C32_error_exit_blocks_close.
+
+Theorem C32_close_twice_panics : forall fx c st y n f,
+  y_entry y = Some n -> nth_error (y_ns y) n = Some f ->
+  y_panic (yrun fx c st y [VClose; VClose]) = true.
+Proof. exact close_twice_panics. Qed.
+Print Assumptions C32_close_twice_panics.
